@@ -694,4 +694,142 @@ def confBlocked (c : Option ProfConf) (qname : String) (qt : Nat) (z : ZAddr) (l
   | none => false
   | some c => c.acc.isBlockedZ qname qt z l
 
+/-! ## Rule texts: `access.lowerRule` (fourth deepening)
+
+`NewGlobal` and `blockedHostEngine.init` hand every rule text to urlfilter through `lowerRule`.  Before
+the repair they lower-cased the whole text (`strings.ToLower`), which rewrites the escape sequences of a
+regular-expression rule (`\D` → `\d`, `\S` → `\s`, `\W` → `\w`).  The repaired code keeps the text from
+the first `/` of a pattern that starts with one (after an optional `@@`) up to the last `/` as written and
+lower-cases only what follows (the options); every other rule is lower-cased as before. -/
+
+/-- ASCII white space (`strings.TrimSpace`; the generators pad with ASCII blanks only). -/
+def isSpaceC (c : Char) : Bool :=
+  c == ' ' || c == '\t' || c == '\n' || c == '\r' || c == Char.ofNat 11 || c == Char.ofNat 12
+
+/-- `strings.TrimSpace`. -/
+def trimSpaceL (l : List Char) : List Char := ((l.dropWhile isSpaceC).reverse.dropWhile isSpaceC).reverse
+
+/-- `strings.ToLower` over a list of ASCII characters. -/
+def lowerL (l : List Char) : List Char := l.map Char.toLower
+
+/-- Splitting at the last `/` (`strings.LastIndexByte`): the part up to and including it, and the rest. -/
+def splitLastSlash : List Char → Option (List Char × List Char)
+  | [] => none
+  | c :: cs =>
+    match splitLastSlash cs with
+    | some ab => some (c :: ab.1, ab.2)
+    | none => if c == '/' then some ([c], cs) else none
+
+/-- `strings.TrimPrefix(text, "@@")` with the removed prefix. -/
+def stripAllow : List Char → List Char × List Char
+  | '@' :: '@' :: r => (['@', '@'], r)
+  | l => ([], l)
+
+/-- `access.lowerRule` (the repaired code). -/
+def lowerRuleL (text : List Char) : List Char :=
+  let t := trimSpaceL text
+  match (stripAllow t).2 with
+  | '/' :: rest =>
+    match splitLastSlash rest with
+    | some ab => (stripAllow t).1 ++ '/' :: ab.1 ++ lowerL ab.2
+    | none => lowerL t
+  | _ => lowerL t
+
+def lowerRule (s : String) : String := String.ofList (lowerRuleL s.toList)
+
+/-- The code before the repair: `strings.ToLower(h)`. -/
+def lowerRulePreFixL (text : List Char) : List Char := lowerL text
+
+/-! ### A fragment of regular-expression rules
+
+`/^` items `$/`, an item being a literal character or an escape `\k`, optionally followed by `+`.  The
+escapes `\d \D \w \W \s \S` are the Perl classes (ASCII), any other escaped character stands for itself.
+urlfilter compiles the pattern with `(?i)`: literals match case-insensitively. -/
+
+inductive RxAtom where
+  | lit (c : Char)
+  | esc (k : Char)
+deriving Repr, DecidableEq
+
+structure RxItem where
+  atom : RxAtom
+  plus : Bool
+deriving Repr, DecidableEq
+
+def wordChar (c : Char) : Bool := c.isAlphanum || c == '_'
+
+def RxAtom.matches (a : RxAtom) (c : Char) : Bool :=
+  match a with
+  | .lit x => x.toLower == c.toLower
+  | .esc k =>
+    if k == 'd' then c.isDigit else if k == 'D' then !c.isDigit
+    else if k == 'w' then wordChar c else if k == 'W' then !wordChar c
+    else if k == 's' then isSpaceC c else if k == 'S' then !isSpaceC c
+    else k.toLower == c.toLower
+
+/-- The items of a pattern body. -/
+def rxItems : List Char → List RxItem
+  | [] => []
+  | '\\' :: k :: '+' :: r => ⟨.esc k, true⟩ :: rxItems r
+  | '\\' :: k :: r => ⟨.esc k, false⟩ :: rxItems r
+  | c :: '+' :: r => ⟨.lit c, true⟩ :: rxItems r
+  | c :: r => ⟨.lit c, false⟩ :: rxItems r
+
+/-- The anchored match of the items against a whole name. -/
+def rxMatch : List RxItem → List Char → Bool
+  | [], h => h.isEmpty
+  | _ :: _, [] => false
+  | it :: its, c :: h => it.atom.matches c && (rxMatch its h || (it.plus && rxMatch (it :: its) h))
+
+/-- The regular expression of a rule text of the form `/^…$/`. -/
+def rxOfText (t : List Char) : Option (List RxItem) :=
+  match t with
+  | '/' :: '^' :: r =>
+    match r.reverse with
+    | '/' :: '$' :: b => some (rxItems b.reverse)
+    | _ => none
+  | _ => none
+
+/-- What the engine decides for a single option-free regular-expression rule whose text reached it as
+`t`: blocked iff the text is a regular expression of the fragment and matches the name. -/
+def rxTextBlocks (t : List Char) (host : List Char) : Bool :=
+  match rxOfText t with
+  | some items => rxMatch items host
+  | none => false
+
+/-- The repaired code: the engine is given `lowerRule text`. -/
+def rxRuleBlocks (text host : List Char) : Bool := rxTextBlocks (lowerRuleL text) host
+
+/-- The code before the repair: the engine was given `strings.ToLower(text)`. -/
+def rxRuleBlocksPreFix (text host : List Char) : Bool := rxTextBlocks (lowerRulePreFixL text) host
+
+/-! ## The global settings in the configuration file (fourth deepening)
+
+`access.blocked_client_subnets` is a list of `netutil.Prefix`: an entry with a `/` is read by
+`netip.ParsePrefix` (the address is kept unmasked; a length beyond the family's width is an error and the
+program does not start), an entry without one is an address and becomes the prefix of full length
+(`netip.PrefixFrom(ip, ip.BitLen())`, which also drops a zone). -/
+
+structure YamlNet where
+  is4 : Bool
+  val : Nat
+  /-- `none`: a bare address. -/
+  bits : Option Nat
+deriving Repr, DecidableEq
+
+/-- `netutil.Prefix.UnmarshalText`; `none`: the configuration is rejected. -/
+def YamlNet.toPrefix (y : YamlNet) : Option Prefix :=
+  match y.bits with
+  | none => some ⟨y.is4, y.val, width y.is4⟩
+  | some b => if b ≤ width y.is4 then some ⟨y.is4, y.val, b⟩ else none
+
+/-- `yaml.Unmarshal` + `netutil.UnembedPrefixes` + `access.NewGlobal` as far as the subnets go: all
+entries or no start-up. -/
+def yamlNets : List YamlNet → Option (List Prefix)
+  | [] => some []
+  | y :: ys =>
+    match y.toPrefix, yamlNets ys with
+    | some p, some ps => some (p :: ps)
+    | _, _ => none
+
 end Agd.Access
